@@ -1505,13 +1505,31 @@ def c15_groups(vi, quick, reps):
     return groups
 
 
+def c15_mixed_groups(vi, quick):
+    """one process signs with ALL hashes in turn (same Winternitz parameter, different output sizes): whatever the library
+    remembers between calls - a table, a buffer - must not leak from one hash into the next"""
+    groups = []
+    for w in ((4,) if quick else (1, 2, 4, 8)):
+        cmds = []
+        order = [ALGS[(vi + i) % 6] for i in (0, 1, 2, 3, 4, 5, 0, 2)]
+        for i, alg in enumerate(order):
+            n = N_OF[alg]
+            name = "c15/mixed/w%d/%d/%s" % (w, i, alg)
+            cmds.append(cmd_keygen(alg, [(w, 2)], seed_hex(name, alg), out={"sk": "sk%d" % i, "pk": "pk%d" % i}))
+            m = {"cat": [msg_hex(name, 20 + i), {"rep": n, "byte": 0}]}
+            cmds.append(cmd_sign_mut(alg, key_at("sk%d" % i, i % 4), m, out={"sig": "sig", "msg_out": "mo"}, meta={"class": "zero_trailer", "mixed": True}))
+            cmds.append(cmd_verify(alg, slot("mo"), slot("sig"), slot("pk%d" % i)))
+        groups.append({"name": "c15/mixed/w%d" % w, "cmds": cmds, "cost": 4.0})
+    return groups
+
+
 def c15_phases(ctx):
     quick = ctx["tier"] == "quick"
     configs = [(1, 200), (4, 64), (8, 3)] if quick else [(1, 200), (2, 200), (4, 64), (8, 64), (8, 3), (3, 100), (1, 1), (2, 0)]
     phases = []
     for vi, (threads, budget) in enumerate(configs):
         v = fv_variant(threads, budget)
-        phases.append({"tag": "c15-" + v.name, "variant": v, "groups": c15_groups(vi, quick, 2 if quick else 10), "controls": vi == 0,
+        phases.append({"tag": "c15-" + v.name, "variant": v, "groups": c15_groups(vi, quick, 2 if quick else 10) + c15_mixed_groups(vi, quick), "controls": vi == 0,
                        "space": "fast_verify build with %d threads, budget %d: 6 hashes x W x messages (n+1, n+2, 100, 4096) x repetitions; refusal cases" % (threads, budget)})
     return phases
 
@@ -1656,8 +1674,29 @@ def c09_aux_history_groups(ctx):
     return groups
 
 
+def c09_mixed_groups(ctx):
+    """ONE process, all six hashes, the SAME seed bytes (prefix) and parameter list, interleaved and repeated: nothing a call
+    leaves behind (a static table, a cache keyed too coarsely) may reach the next call"""
+    groups = []
+    for w in ((4,) if ctx["tier"] == "quick" else (1, 2, 4, 8)):
+        base = det_bytes("c09/mixed/seed/%d" % w, 32)
+        cmds = []
+        for rnd in range(2):
+            for i, alg in enumerate(ALGS if rnd == 0 else ALGS[::-1]):
+                n = N_OF[alg]
+                sk, pk = "sk_%s" % alg, "pk_%s" % alg
+                cmds.append(cmd_keygen(alg, [(w, 2), (4, 2)], base[:n].hex(), out={"sk": sk, "pk": pk}))
+                m = msg_hex("c09/mixed/%d/%d" % (w, i), 14)
+                cmds.append(cmd_sign(alg, key_at(sk, 3 + rnd), m, out={"sig": "s"}))
+                cmds.append(cmd_verify(alg, m, slot("s"), slot(pk)))
+                cmds.append(cmd_lifetime(alg, key=key_at(sk, 3 + rnd)))
+        groups.append({"name": "c09/mixed/w%d" % w, "cmds": cmds, "cost": 3.0})
+    return groups
+
+
 def c09_phases(ctx):
     ph = api_phases(ctx, "c09")
+    ph[0]["groups"] += c09_mixed_groups(ctx)
     ph[0]["groups"] += c09_parallel_groups(ctx)
     ph[0]["groups"] += c09_aux_history_groups(ctx)
     ph[0]["space"] += "; the same keygen/sign/verify/lifetime calls from the main thread, 4-16 concurrent threads and a fresh child process"
